@@ -246,13 +246,17 @@ namespace detail
 		return detail::functor1<vec, L, T, T, Q>::call(mask, v);
 	}
 
+	// The rotations are done in the unsigned counterpart of the type (a signed right shift would smear the sign bit), and the
+	// complementary shift count is reduced modulo the width so that Shift = 0 does not shift by the full width.
 	template<typename genIType>
 	GLM_FUNC_QUALIFIER genIType bitfieldRotateRight(genIType In, int Shift)
 	{
 		GLM_STATIC_ASSERT(std::numeric_limits<genIType>::is_integer, "'bitfieldRotateRight' accepts only integer values");
 
-		int const BitSize = static_cast<genIType>(sizeof(genIType) * 8);
-		return (In << static_cast<genIType>(Shift)) | (In >> static_cast<genIType>(BitSize - Shift));
+		typedef typename detail::make_unsigned<genIType>::type UType;
+		int const BitSize = static_cast<int>(sizeof(genIType) * 8);
+		UType const Value = static_cast<UType>(In);
+		return static_cast<genIType>(static_cast<UType>(Value << Shift) | static_cast<UType>(Value >> ((BitSize - Shift) % BitSize)));
 	}
 
 	template<length_t L, typename T, qualifier Q>
@@ -260,8 +264,10 @@ namespace detail
 	{
 		GLM_STATIC_ASSERT(std::numeric_limits<T>::is_integer, "'bitfieldRotateRight' accepts only integer values");
 
+		typedef typename detail::make_unsigned<T>::type UType;
 		int const BitSize = static_cast<int>(sizeof(T) * 8);
-		return (In << static_cast<T>(Shift)) | (In >> static_cast<T>(BitSize - Shift));
+		vec<L, UType, Q> const Value(In);
+		return vec<L, T, Q>((Value << static_cast<UType>(Shift)) | (Value >> static_cast<UType>((BitSize - Shift) % BitSize)));
 	}
 
 	template<typename genIType>
@@ -269,8 +275,10 @@ namespace detail
 	{
 		GLM_STATIC_ASSERT(std::numeric_limits<genIType>::is_integer, "'bitfieldRotateLeft' accepts only integer values");
 
-		int const BitSize = static_cast<genIType>(sizeof(genIType) * 8);
-		return (In >> static_cast<genIType>(Shift)) | (In << static_cast<genIType>(BitSize - Shift));
+		typedef typename detail::make_unsigned<genIType>::type UType;
+		int const BitSize = static_cast<int>(sizeof(genIType) * 8);
+		UType const Value = static_cast<UType>(In);
+		return static_cast<genIType>(static_cast<UType>(Value >> Shift) | static_cast<UType>(Value << ((BitSize - Shift) % BitSize)));
 	}
 
 	template<length_t L, typename T, qualifier Q>
@@ -278,8 +286,10 @@ namespace detail
 	{
 		GLM_STATIC_ASSERT(std::numeric_limits<T>::is_integer, "'bitfieldRotateLeft' accepts only integer values");
 
+		typedef typename detail::make_unsigned<T>::type UType;
 		int const BitSize = static_cast<int>(sizeof(T) * 8);
-		return (In >> static_cast<T>(Shift)) | (In << static_cast<T>(BitSize - Shift));
+		vec<L, UType, Q> const Value(In);
+		return vec<L, T, Q>((Value >> static_cast<UType>(Shift)) | (Value << static_cast<UType>((BitSize - Shift) % BitSize)));
 	}
 
 	template<typename genIUType>
